@@ -183,6 +183,21 @@ EvSecond ==
                    \o (IF e.rer_c = "ok" THEN Node("last rollup exit root (second node)", e.rer, UName(ust)) ELSE <<>>))
   /\ l' = l + 1 /\ UNCHANGED <<t, nB, nI, ust, cnt>>
 
+(* ... and a second bridge syncer (bridgesync.NewL1, InitialBlockNum below the block of the first deposit) *)
+EvSecondBridge ==
+  /\ Is("second_bridge")
+  /\ LET e == Trace[l]
+         per(i) == LET x == e.roots[i + 1] IN
+                     Chk(x.c = "ok", "NodeMirrorsContract", "GetExitRootByIndex of the second bridge syncer", <<i, x.c>>, "ok")
+                     \o (IF x.c = "ok" THEN Node("exit root by index (second bridge syncer)", x.root, RootName(i + 1)) ELSE <<>>)
+         RECURSIVE all(_)
+         all(i) == IF i >= Len(e.roots) THEN <<>> ELSE per(i) \o all(i + 1)
+     IN viol' = viol
+          \o Chk(e.c = "ok", "NodeMirrorsContract", "the second bridge syncer reaches the tip of the chain", e.c, "ok")
+          \o Chk(e.n = nB /\ Len(e.roots) = nB, "INFRA-SecondNode", "deposits asked", Len(e.roots), nB)
+          \o (IF e.c = "ok" THEN all(0) ELSE <<>>)
+  /\ l' = l + 1 /\ UNCHANGED <<t, nB, nI, ust, cnt>>
+
 EvAmbiguous ==
   /\ Is("ambiguous")
   /\ viol' = viol \o <<V("INFRA-AmbiguousNames", Trace[l].what)>>
@@ -194,7 +209,7 @@ Finish ==
   /\ PrintT(<<"DONE", ToJson([lines |-> Len(Trace), traces |-> t, checked |-> cnt])>>)
   /\ l' = l + 1 /\ UNCHANGED <<t, nB, nI, ust, cnt, viol>>
 
-Next == EvCfg \/ EvProcess \/ EvBridge \/ EvLeafValue \/ EvL1Info \/ EvRollup \/ EvSync \/ EvSecond \/ EvAmbiguous \/ Finish
+Next == EvCfg \/ EvProcess \/ EvBridge \/ EvLeafValue \/ EvL1Info \/ EvRollup \/ EvSync \/ EvSecond \/ EvSecondBridge \/ EvAmbiguous \/ Finish
 Spec == Init /\ [][Next]_vars
 
 HW == TLCSet(1, IF l > TLCGet(1) THEN l ELSE TLCGet(1))
